@@ -84,6 +84,23 @@ def generate(repo, keys, contracts_dir=None, procs=None):
     if not jobs:
         return infos, obs
     procs = procs or min(16, os.cpu_count() or 4, len(jobs))
+    infos, obs = _generate_round(jobs, procs, GEN_TIMEOUT_S // 2)
+    # the in-process feasibility checks of the executor can (rarely) hang in
+    # z3: a function whose generation timed out gets one more attempt
+    again = [j for j, i in zip(jobs, infos) if i.get("undecided") ==
+             "generation timed out"]
+    if again:
+        infos2, obs2 = _generate_round(again, min(procs, len(again)),
+                                       GEN_TIMEOUT_S)
+        by = {i["function"]: i for i in infos2}
+        infos = [by.get(i["function"], i) if i.get("undecided") ==
+                 "generation timed out" else i for i in infos]
+        obs.extend(obs2)
+    return infos, obs
+
+
+def _generate_round(jobs, procs, timeout_s):
+    infos, obs = [], []
     ctx = mp.get_context("fork")
     # one fresh process per function: the z3 term ids (and with them the
     # SMT-LIB text and the solver's heuristics) are then the same on every
@@ -91,7 +108,7 @@ def generate(repo, keys, contracts_dir=None, procs=None):
     pool = ctx.Pool(procs, maxtasksperchild=1)
     try:
         asyncs = [(j, pool.apply_async(_gen_one, (j,))) for j in jobs]
-        deadline = time.time() + GEN_TIMEOUT_S
+        deadline = time.time() + timeout_s
         for j, a in asyncs:
             try:
                 info, o = a.get(timeout=max(1, deadline - time.time()))
